@@ -602,6 +602,9 @@ class Families:
         for m in methods:
             if F.bodies[m]["kind"] == "closure":
                 continue
+            # only a method that borrows the RefCell itself can hold a borrow while it calls on; one that merely delegates (set_entry -> with_top_context) cannot
+            if not any("RefCell" in (p or "") for p, _, _, _ in G.ext_calls.get(m, ())):
+                continue
             seen, _ = G.reach([m])
             for x in seen:
                 if x == m or x.startswith(m + "::{closure"):
@@ -626,11 +629,14 @@ class Families:
 
     # ---- LALR driver -----------------------------------------------------------------------------------
     def lalr_driver(self, A, s, driver_ok):
-        if s.fn != "dmntk_feel_parser::parser::Parser::<'parser>::parse":
+        # the driver = Parser::parse and the private non-action methods of Parser (its loop may be split into step functions)
+        if not re.match(r"^dmntk_feel_parser::parser::Parser::(<[^>]*>::)?\w+$", s.fn) or s.fn.split("::")[-1].startswith("action_"):
             return None
         if not driver_ok:
             return None
         h = self.F.hir.get(s.fn)
+        if h is None:
+            return None
         # the site must be an access to one of the parsing tables / an arithmetic step of the documented driver algorithm
         if s.kind == "assert" and s.what == "BoundsCheck":
             idxs = [x for x, _ in find_hir(h["body"], lambda x: x.get("k") == "Index" and x.get("l") == s.line)]
